@@ -667,6 +667,10 @@ class CFG:
                     used |= set(clash.values())
                 return self._block(ds, ctxs)
         if self.inliner is not None:
+            if isinstance(s, ast.For):
+                fr = self._try_unroll(s, ctxs)
+                if fr is not None:
+                    return fr
             if isinstance(s, (ast.With, ast.AsyncWith, ast.For, ast.AsyncFor)):
                 fr = self._try_splice(s, ctxs)
                 if fr is not None:
@@ -874,7 +878,7 @@ class CFG:
             hinfos = []
             for h in s.handlers:
                 hn = self._new("handler", h, inner)
-                hi = HandlerInfo(h, handler_types(h), hn)
+                hi = HandlerInfo(h, self._handler_types(h), hn)
                 hinfos.append(hi)
                 self.handlers.append(hi)
             tctx = TryCtx(s, hinfos)
@@ -905,6 +909,91 @@ class CFG:
                     outs = fb.outs
             return Frag(entry, outs)
         raise AnalysisError("unmodelled statement %s in %s" % (type(s).__name__, self.fi.qualname))
+
+    def _const_expr(self, name: str) -> Optional[ast.AST]:
+        """Module-level constant expression bound to *name* in the module whose code is being built."""
+        mod = self._resolve_fi().module if self.inliner is not None else self.fi.module
+        return mod.const_exprs.get(name) or self.fi.module.const_exprs.get(name)
+
+    def _handler_types(self, h: ast.ExceptHandler):
+        """handler_types() with module-level tuples of exception classes (`except _REFUSALS as e`) expanded."""
+        t = h.type
+        if isinstance(t, ast.Name):
+            ce = self._const_expr(t.id)
+            if isinstance(ce, ast.Tuple):
+                return [exc_name_of(x) for x in ce.elts]
+        if isinstance(t, ast.Tuple):
+            out = []
+            for x in t.elts:
+                ce = self._const_expr(x.id) if isinstance(x, ast.Name) else None
+                if isinstance(ce, ast.Tuple):
+                    out.extend(exc_name_of(y) for y in ce.elts)
+                else:
+                    out.append(exc_name_of(x))
+            return out
+        return handler_types(h)
+
+    def _try_unroll(self, s, ctxs) -> Optional[Frag]:
+        """`for K, V in TABLE.items(): BODY` over a small module-level constant dict / tuple / list display:
+        BODY once per entry with the loop variables replaced by the entry's expressions (dispatch tables)."""
+        if s.orelse or not isinstance(s, ast.For):
+            return None
+        it = s.iter
+        how = "seq"
+        base = it
+        if isinstance(it, ast.Call) and isinstance(it.func, ast.Attribute) and it.func.attr in ("items", "keys", "values") and not it.args and not it.keywords:
+            how, base = it.func.attr, it.func.value
+        if not isinstance(base, ast.Name):
+            return None
+        ce = self._const_expr(base.id)
+        if isinstance(ce, ast.Dict):
+            if how == "seq":
+                how = "keys"
+            if any(k is None for k in ce.keys) or len(ce.keys) > 16:
+                return None
+            entries = [{"items": (k, v), "keys": (k,), "values": (v,)}[how] for k, v in zip(ce.keys, ce.values)]
+        elif isinstance(ce, (ast.Tuple, ast.List)) and how == "seq" and len(ce.elts) <= 16 and not any(isinstance(x, ast.Starred) for x in ce.elts):
+            entries = []
+            for x in ce.elts:
+                entries.append(tuple(x.elts) if isinstance(x, ast.Tuple) and isinstance(s.target, ast.Tuple) else (x,))
+        else:
+            return None
+        # only dispatch tables (entries that name functions / classes / lambdas): a table of plain constants is an
+        # ordinary data loop
+        if not any(isinstance(x, (ast.Name, ast.Attribute, ast.Lambda)) for en in entries for e_ in en for x in ast.walk(e_)):
+            return None
+        tg = s.target
+        names = [tg.id] if isinstance(tg, ast.Name) else [e_.id for e_ in tg.elts] if isinstance(tg, ast.Tuple) and all(isinstance(e_, ast.Name) for e_ in tg.elts) else None
+        if names is None or any(len(en) != len(names) for en in entries):
+            return None
+        # the loop variables must not be rebound in the body, and the body must not break / continue
+        for x in ast.walk(ast.Module(body=list(s.body), type_ignores=[])):
+            if isinstance(x, (ast.Break, ast.Continue)):
+                return None
+            if isinstance(x, ast.Name) and isinstance(x.ctx, (ast.Store, ast.Del)) and x.id in names:
+                return None
+        # the entries must be built from names of the same module only (they are re-evaluated where they are used)
+        import copy as _copy
+
+        class Sub(ast.NodeTransformer):
+            def __init__(self, m):
+                self.m = m
+
+            def visit_Name(self, n):
+                if isinstance(n.ctx, ast.Load) and n.id in self.m:
+                    return ast.copy_location(_copy.deepcopy(self.m[n.id]), n)
+                return n
+
+        stmts = []
+        for en in entries:
+            sub = Sub(dict(zip(names, en)))
+            for b in s.body:
+                stmts.append(ast.fix_missing_locations(sub.visit(_copy.deepcopy(b))))
+        fr = self._block(stmts, ctxs)
+        if fr.entry is None:
+            n = self._new("stmt", None, ctxs, label="unrolled-empty")
+            return Frag(n, [(n, "n")])
+        return fr
 
     # -- inlining of helpers unknown to the rules (see inline.py)
     def _resolve_fi(self) -> FuncInfo:
@@ -1209,14 +1298,25 @@ class CFG:
         r = self.reachable([self.entry], block_nodes=list(a_nodes))
         return b.id not in r
 
+    def test_edges(self, t: Node, lab: str) -> List[Tuple[Node, Node, str]]:
+        """The *lab* edges of test node *t* and of its copies (the same test built once per return site of an
+        inlined helper, see _assign_then_if): they are one test of the program."""
+        out = []
+        for c in self.nodes:
+            if c.kind == "test" and c.ast is t.ast:
+                out.extend((c, m, l) for m, l in c.succ if l == lab)
+        return out
+
     def required_conditions(self, b: Node) -> List[Tuple[ast.AST, bool]]:
         """Atoms whose truth value is implied by reaching *b* (from entry)."""
         out = []
+        seen_ast = set()
         for t in self.nodes:
-            if t.kind != "test" or t is b:
+            if t.kind != "test" or t is b or id(t.ast) in seen_ast:
                 continue
+            seen_ast.add(id(t.ast))
             for pol, lab in ((True, "t"), (False, "f")):
-                edges = [(t, m, l) for m, l in t.succ if l == lab]
+                edges = self.test_edges(t, lab)
                 if not edges:
                     continue
                 r = self.reachable([self.entry], block_edges=edges)
